@@ -65,7 +65,7 @@ def _contents(rng, fid, shape, dch):
             n += 1
             ents.append([None, k, "v%d.%d" % (fid, n)])
     if shape in ("sections", "both"):
-        for s in rng.subset(["secA", "secB"], 1, 2):
+        for s in rng.subset(["secA", "secB", "[secB]"], 1, 2):      # "[secB]": written [[secB]] in the file, the brackets are part of the stored name
             for k in rng.subset(["alpha", "de", "delta", "eps", "delta.x"], 1, 3):
                 n += 1
                 ents.append([s, k, "v%d.%d" % (fid, n)])
